@@ -18,6 +18,7 @@ SPECIES = {
     "Na+": {11: 1, 0: 1}, "Cl-": {17: 1, 0: -1}, "NaCl(s)": {11: 1, 17: 1},
     "AgCl(s)": {47: 1, 17: 1}, "Ba+2": {56: 1, 0: 2}, "SO4-2": {16: 1, 8: 4, 0: -2}, "BaSO4(s)": {56: 1, 16: 1, 8: 4},
     "Ca+2": {20: 1, 0: 2}, "CaF2(s)": {20: 1, 9: 2},
+    "I-": {53: 1, 0: -1}, "AgI(s)": {47: 1, 53: 1},
 }
 
 # name -> (reac, prod, log10 K)
@@ -43,12 +44,19 @@ EQUILIBRIA = {
     "agcl": ({"AgCl(s)": 1}, {"Ag+": 1, "Cl-": 1}, -9.74),
     "baso4": ({"BaSO4(s)": 1}, {"Ba+2": 1, "SO4-2": 1}, -9.96),
     "caf2": ({"CaF2(s)": 1}, {"Ca+2": 1, "F-": 2}, -10.41),
+    "agi": ({"AgI(s)": 1}, {"Ag+": 1, "I-": 1}, -16.07),
+    # overall (multi-proton / multi-ligand) reactions: coefficient patterns other than 1:1:1, used on their own
+    "h2co3_overall": ({"H2CO3": 1}, {"H+": 2, "CO3-2": 1}, -16.68),
+    "h3po4_overall": ({"H3PO4": 1}, {"H+": 3, "PO4-3": 1}, -21.70),
+    "agnh32_diss": ({"Ag(NH3)2+": 1}, {"Ag+": 1, "NH3": 2}, -7.2),
+    "cunh34_diss": ({"Cu(NH3)4+2": 1}, {"Cu+2": 1, "NH3": 4}, -13.2),
 }
 
 # groups that make chemical sense together (prerequisite chains kept in order)
 CHAINS = [["nh4"], ["hoac"], ["h2co3", "hco3"], ["h3po4", "h2po4", "hpo4"], ["hf"], ["cu1", "cu2", "cu3", "cu4"],
           ["fescn"], ["ag1", "ag2"]]
-SALTS = ["nacl", "agcl", "baso4", "caf2"]
+SALTS = ["nacl", "agcl", "baso4", "caf2", "agi"]
+OVERALL = ["h2co3_overall", "h3po4_overall", "agnh32_diss", "cunh34_diss"]
 
 
 def is_solid(name):
